@@ -1,5 +1,6 @@
 import GeomV.C16.Model
 import GeomV.C16.Spec
+import GeomV.C16.Layout
 /-!
 Driver for C16.  `geomv_c16 judge` reads lines `file … => <implementation's answer>` (grammar in
 `harness/cmd/c16/main.go`) and prints one verdict per line:
@@ -116,6 +117,9 @@ def caseP : PM Case := do
   let recs ← many recP n
   pure ⟨w, r, recs⟩
 
+def hexTok (s : String) : Option Bytes :=
+  if s.length = 1 then some [] else hexToBytes ((s.drop 1).toString)
+
 /-! ## running the model -/
 
 def zeroFieldGeom : GK → BGeom
@@ -146,6 +150,68 @@ def runWrite (c : Case) : Except Fault Written :=
     let fields := ffs.map fun f => (⟨name11 f.name, f.typ, f.size, f.prec⟩ : Field)
     let (rows, res) := writeAllF ptEqBits fields c.recs
     .ok ⟨⟨t, fields, rows⟩, res⟩
+
+/-! ## the byte-layout model (Layout.lean) run on the same case -/
+
+/-- the three files after `Close()` according to the byte-level writer model: the same calls, in the same order,
+on the encoder (`Encode` / `EncodeFields` per the writer schedule), each through `Writer.Write` and
+`Writer.WriteAttribute` with the encoder's cursor -/
+def runBytes (c : Case) : Option Layout.Files :=
+  match c.w with
+  | .s sfs sched =>
+    match newEncoder sfs with
+    | .error _ => none
+    | .ok e =>
+      let step := fun (acc : Layout.BW × Nat) (r : BGeom × List Val) =>
+        let via := if sched.isEmpty then true else (sched[acc.2 % sched.length]?).getD true
+        ((Layout.encode e.shpType e.fields acc.1 via (Layout.fieldShapeB e.geomKind (fieldGeom e.geomKind r.1)) r.2).1, acc.2 + 1)
+      some (Layout.close e.shpType e.fields (c.recs.foldl step (Layout.create e.fields, 0)).1)
+  | .f t ffs =>
+    let fields := ffs.map fun f => (⟨name11 f.name, f.typ, f.size, f.prec⟩ : Field)
+    let step := fun (w : Layout.BW) (r : BGeom × List Val) => (Layout.encode t fields w false (Layout.geom2ShpB r.1) r.2).1
+    some (Layout.close t fields (c.recs.foldl step (Layout.create fields)))
+
+def firstByteDiff : Bytes → Bytes → Nat → String
+  | a :: as, b :: bs, i => if a == b then firstByteDiff as bs (i + 1) else s!"offset={i} model={a.toNat} file={b.toNat}"
+  | [], [], _ => "none"
+  | _ :: _, [], i => s!"offset={i} file-ends-model-goes-on"
+  | [], _ :: _, i => s!"offset={i} model-ends-file-goes-on"
+
+def shapeEq : Shape UInt64 → Shape UInt64 → Bool
+  | .null, .null => true
+  | .point p, .point q => p == q
+  | .polyLine a b, .polyLine c d => a == c && b == d
+  | .polygon a b, .polygon c d => a == c && b == d
+  | .multiPoint a, .multiPoint b => a == b
+  | _, _ => false
+
+def rowsEq : List (Shape UInt64 × List Bytes) → List (Shape UInt64 × List Bytes) → Bool
+  | [], [] => true
+  | a :: as, b :: bs => shapeEq a.1 b.1 && a.2 == b.2 && rowsEq as bs
+  | _, _ => false
+
+/-- `none` = the real files are, byte for byte, what the layout model writes, AND read through the layout
+model's reader they are the row store (`FileM`) the abstract writer model computed; else what differs -/
+def bytesVerdict (c : Case) (abstractFile : Option (FileM UInt64)) (filesTok : Tok) : Option String :=
+  match filesTok, runBytes c with
+  | [], _ => some "bytes-missing-in-answer"
+  | _, none => some "bytes-present-but-model-has-no-encoder"
+  | [_, a, b, d], some m =>
+    (match hexTok a, hexTok b, hexTok d with
+    | some shp, some shx, some dbf =>
+      if shp != m.shp then some s!"bytes-shp-differ {firstByteDiff m.shp shp 0}"
+      else if shx != m.shx then some s!"bytes-shx-differ {firstByteDiff m.shx shx 0}"
+      else if dbf != m.dbf then some s!"bytes-dbf-differ {firstByteDiff m.dbf dbf 0}"
+      else match abstractFile, Layout.fileOfBytes shp dbf with
+        | some f, some f' =>
+          if f.shpType != f'.shpType then some "bytes-read-back-shape-type-differs"
+          else if f.fields != f'.fields then some "bytes-read-back-fields-differ"
+          else if !rowsEq f.rows f'.rows then some s!"bytes-read-back-rows-differ abstract={f.rows.length} bytes={f'.rows.length}"
+          else none
+        | _, none => some "bytes-unreadable-by-the-layout-reader"
+        | none, _ => none
+    | _, _, _ => some "bytes-bad-hex")
+  | _, _ => some "bytes-bad-answer"
 
 def runRead (c : Case) (f : FileM UInt64) : ReadRes UInt64 :=
   match c.r with
@@ -306,9 +372,6 @@ def readerPlan (c : Case) (cols : List Col) : Option (List (Bool × List (Option
   let cs := callsOf c.r
   if cs.isEmpty then none else cs.mapM (callPlan c cols)
 
-def hexTok (s : String) : Option Bytes :=
-  if s.length = 1 then some [] else hexToBytes ((s.drop 1).toString)
-
 /-- one attribute value against the statement; `none` = satisfied, `some (severity, why)` otherwise
 (severity 1: altered blank at the edge of a string, the recorded format limitation) -/
 def checkVal (readerIsStruct : Bool) (col : Col) (written : Val) (got : String) : Option (Nat × String) :=
@@ -379,7 +442,9 @@ def firstDiff : Tok → Tok → Nat → String
   | [], b :: _, i => s!"token {i}: model=<end> impl={b}"
 
 def judgeLine (line : String) : String :=
-  let (lhs, rhs) := splitArrow (tokens line)
+  let (lhs, rhsAll) := splitArrow (tokens line)
+  let rhs := rhsAll.takeWhile (· ≠ "FILES")
+  let filesTok := rhsAll.dropWhile (· ≠ "FILES")
   match (caseP.run lhs) with
   | none => "BAD parse"
   | some (c, _) =>
@@ -394,11 +459,17 @@ def judgeLine (line : String) : String :=
       | [t] => if t.startsWith "newenc-panic" then ["newenc-panic"] else [t]
       | t => t
     let m := modelOut c
+    let bytesBad : Option String :=
+      if rhsN.head? != some "W" then none
+      else bytesVerdict c (match runWrite c with | .ok w => some w.file | .error _ => none) filesTok
     let same := m == rhsN
     let plan := if writerInContract c then readerPlan c cols else none
     match plan with
     | none =>
-      if same then s!"OK {cls0}-oob" else s!"DIFF {cls0}-oob {firstDiff m rhsN 0}"
+      if !same then s!"DIFF {cls0}-oob {firstDiff m rhsN 0}"
+      else match bytesBad with
+        | some why => s!"DIFF {cls0}-oob {why}"
+        | none => s!"OK {cls0}-oob"
     | some plan =>
       match implP.run rhsN with
       | none => s!"SPEC {cls0} writing-or-reading-failed-on-in-contract-input got={" ".intercalate (rhsN.take 6)}"
@@ -408,6 +479,7 @@ def judgeLine (line : String) : String :=
         | some (_, why) => s!"SPEC {cls0} {why}"
         | none =>
           if !same then s!"DIFF {cls0} {firstDiff m rhsN 0}"
+          else if bytesBad.isSome then s!"DIFF {cls0} {bytesBad.getD ""}"
           else match vs.head? with
             | some (_, why) => s!"SPEC {cls0} {why}"
             | none => s!"OK {cls0}"
